@@ -819,6 +819,15 @@ func (ex *Exec) scanValue(fr *frame, v ssa.Value) Value {
 				return c.content
 			case *Term:
 				// a real cell reference: read it in the state the scan is run for
+				if al, isAl := x.X.(*ssa.Alloc); isAl && ex.scanState != nil && entryOnlyStore(al) {
+					// the cell of a captured variable that is written exactly once, in the entry block
+					// (`*t0 = s`): its content at any later point is the content in the scan state
+					if _, isFn := types.Unalias(x.Type()).Underlying().(*types.Signature); !isFn {
+						if s := ex.vc.SortOf(x.Type()); s == SInt {
+							return ex.loadAddr(ex.scanState, ex.cellAddr(c, x.Type()))
+						}
+					}
+				}
 				if ex.scanState != nil {
 					if _, isFn := types.Unalias(x.Type()).Underlying().(*types.Signature); isFn {
 						v := ex.loadAddr(ex.scanState, ex.cellAddr(c, x.Type()))
@@ -930,6 +939,9 @@ func (ex *Exec) scanCallee(fr *frame, fn *ssa.Function, free []Value, c *ssa.Cal
 	if _, ok := models[name]; ok {
 		if mm, ok := modelMods[name]; ok {
 			mm(ex, ms)
+		}
+		if mm, ok := modelModsFn[name]; ok {
+			mm(ex, ms, fn)
 		}
 		ms.add("alive", aliveSort)
 		return
@@ -1043,4 +1055,23 @@ func (ex *Exec) applyPureFuncValue(n *types.Named, f *Term, args []Value) Value 
 	rs := ex.vc.SortOf(sig.Results().At(0).Type())
 	ex.vc.declare(name, fmt.Sprintf("(declare-fun %s (%s) %s)", name, strings.Join(sorts, " "), rs))
 	return App(name, rs, targs...)
+}
+
+// entryOnlyStore: the Alloc is stored to exactly once and that store sits in the function's entry block
+// (the copy of a parameter or local into the cell of a captured variable).
+func entryOnlyStore(al *ssa.Alloc) bool {
+	refs := al.Referrers()
+	if refs == nil {
+		return false
+	}
+	n := 0
+	for _, r := range *refs {
+		if s, ok := r.(*ssa.Store); ok && s.Addr == al {
+			n++
+			if s.Block() == nil || s.Block().Index != 0 {
+				return false
+			}
+		}
+	}
+	return n == 1
 }
